@@ -7,7 +7,8 @@ ALL = ["C%02d" % i for i in range(1, 21)]
 checks, na = [], []
 for pid in ALL:
     modf = os.path.join("harness", "props", pid.lower() + ".py")
-    if not os.path.exists(modf):
+    ready = set(open("harness/ready.txt").read().split())
+    if not os.path.exists(modf) or pid not in ready:
         na.append({"property_id": pid, "reason": "model, theorems and correspondence not built yet in this session; "
                    "not claimed until Properties/%s.v compiles closed and its correspondence runs (DESIGN.md section 9)" % pid})
         continue
